@@ -118,16 +118,60 @@ def _type_obj(name):
     return {'int': 5, 'float': 1.5, 'tuple': (1,), 'object': object(), 'Weird': Weird()}[name]
 
 
-def _make_app(case):
-    from ombott import Ombott, HTTPResponse
-    from ombott.request_pkg.errors import RequestError
-    cfg = dict(debug=bool(case.get('debug')))
-    kind = case.get('kind')
-    if kind == 'map1':
+class BadRepr(Exception):
+    """an exception whose repr() fails (error_render.render guards against it)"""
+
+    def __repr__(self):
+        raise RuntimeError('no repr')
+
+
+APP_KEYS = ('msg', 'tyname', 'via', 'prime', 'debug_via', 'hooks', 'xsn_cfg', 'dmap', 'app_hdr', 'badrepr')
+
+
+def _config(case, debug):
+    cfg = dict(debug=bool(debug))
+    if case.get('kind') == 'map1':
         cfg['max_body_size'] = 3
-    app = Ombott(cfg)
+    if case.get('xsn_cfg'):
+        cfg['allow_x_script_name'] = True
+    if case.get('app_hdr'):
+        cfg['app_name_header'] = case['app_hdr']
+    dm = case.get('dmap')
+    if dm == 'fixed':
+        cfg['domain_map'] = lambda host: 'sub'
+    elif dm == 'fromhost':
+        cfg['domain_map'] = lambda host: (host or '').split('.')[0]
+    return cfg
+
+
+def _set_debug(app, case, debug, how):
+    """the three ways an application's debug flag gets its value"""
+    cfg = _config(case, debug)
+    if how == 'setup':
+        app.setup(cfg)
+    elif how == 'attr':
+        app.config.debug = bool(debug)
+    else:
+        raise ValueError(how)
+
+
+def _make_app(case):
+    from ombott import Ombott, HTTPResponse, HTTPError
+    from ombott.request_pkg.errors import RequestError
+    how = case.get('debug_via', 'ctor')
+    debug = bool(case.get('debug'))
+    if how == 'ctor':
+        app = Ombott(_config(case, debug))
+    elif how == 'setup':
+        app = Ombott()
+        app.setup(_config(case, debug))
+    else:
+        app = Ombott(_config(case, False))
+        app.config.debug = debug
     msg = case.get('msg')
     app.c20_arg = None
+    app.c20_okvar = 'str'
+    app.c20_debug = debug
 
     @app.get('/w/<x:path>')
     def w(x):
@@ -136,6 +180,8 @@ def _make_app(case):
     @app.route('/crash/<x:path>', method='ANY')
     def crash(x):
         app.c20_arg = x
+        if case.get('badrepr'):
+            raise BadRepr(x if msg is None else msg)
         raise ValueError(x if msg is None else msg)
 
     @app.route('/unh/<x:path>', method='ANY')
@@ -174,7 +220,64 @@ def _make_app(case):
     def sur(x):
         return '\ud800'
 
-    if case['t'] == 'crit' and case['trigger'] in ('errhandler', 'errhandler400'):
+    @app.route('/ok/<x:path>', method='ANY')
+    def ok(x):
+        """ordinary, successful traffic between the error requests of a sequence"""
+        v = app.c20_okvar
+        if v == 'bytes':
+            return b'ok'
+        if v == 'empty':
+            return ''
+        if v == 'list':
+            return [b'o', b'k']
+        if v == 'liststr':
+            return ['', 'o', 'k']
+        if v == 'gen':
+            def g():
+                yield 'o'
+                yield 'k'
+            return g()
+        if v == 'gen_empty':
+            return iter([''])
+        if v == 'file':
+            return io.BytesIO(b'ok')
+        if v == 'closeiter':
+            class It:
+                def __iter__(self):
+                    return iter(['o', 'k'])
+
+                def close(self):
+                    pass
+            return It()
+        if v == 'abort_gen':
+            def g2():
+                raise HTTPError(418, 'application text')
+                yield 'never'
+            return g2()
+        if v == 'json_ct':
+            app.response.content_type = 'application/json'
+            return '{}'
+        if v == 'cookie':
+            app.response.set_cookie('k', 'v')
+            return 'ok'
+        return 'ok'
+
+    if case.get('prime'):
+        # application code that reads the request properties before routing (they are cached in environ)
+        def prime():
+            rq_ = app.request
+            rq_.url, rq_.is_json_requested, rq_.urlparts, rq_.fullpath, rq_.script_name, rq_.path
+        app.add_hook('before_request', prime)
+    if case.get('hooks'):
+        app.on_route('/zz', lambda p: None)
+        app.on_route('/crash', lambda p: None)
+        app.error(404, '/sub404')(lambda route, params: 'custom page of the application')
+    crit_eh = case['t'] == 'crit' and case['trigger'] in ('errhandler', 'errhandler400')
+    if case.get('via') == 'custom' and not crit_eh:
+        # custom @error handlers that hand over to the default one
+        for code in (400, 404, 405, 413, 500):
+            app.error(code)(lambda e: app.default_error_handler(e))
+    if crit_eh:
         code = 404 if case['trigger'] == 'errhandler' else 400
 
         @app.error(code)
@@ -185,10 +288,12 @@ def _make_app(case):
 
 # the fixed prefix selects the route (hence the error kind); the 'p' keeps the wildcard non-empty
 PREFIX = {'404': '/zz/p', '405': '/w/p', '400path': '/\xff/p', 'map0': '/rq/p', 'map1': '/body/p', 'map2': '/body/p',
-          'crash': '/crash/p', 'unhandled': '/unh/p', 'type': '/type/p', 'loops': '/loops/p'}
+          'crash': '/crash/p', 'unhandled': '/unh/p', 'type': '/type/p', 'loops': '/loops/p', 'ok': '/ok/p',
+          'sub404': '/sub404/p'}
 CPREFIX = {'errhandler': '/zz/p', 'hdr': '/hdr/p', 'surrogate': '/sur/p', 'nopath': '/', 'errhandler400': '/\xfe/p'}
 # kinds whose request must match a <x:path> wildcard ('.+' does not match LF: such a path is a 404)
-ROUTED = {'405', 'map0', 'map1', 'map2', 'crash', 'unhandled', 'type', 'loops', 'hdr', 'surrogate'}
+ROUTED = {'405', 'map0', 'map1', 'map2', 'crash', 'unhandled', 'type', 'loops', 'hdr', 'surrogate', 'ok'}
+NOISE = {'ok', 'sub404'}        # ordinary traffic inside a sequence: sent, not compared
 
 
 UNDECODABLE = {'400path', 'errhandler400'}      # kinds whose PATH_INFO is meant not to be UTF-8
@@ -231,9 +336,13 @@ def _environ(case):
         'SCRIPT_NAME': case.get('script', ''),
     }
     for k, ek in (('host', 'HTTP_HOST'), ('xfh', 'HTTP_X_FORWARDED_HOST'), ('xfp', 'HTTP_X_FORWARDED_PROTO'),
-                  ('accept', 'HTTP_ACCEPT')):
+                  ('accept', 'HTTP_ACCEPT'), ('xsn', 'HTTP_X_SCRIPT_NAME')):
         if case.get(k) is not None:
             env[ek] = case[k]
+    if case.get('xapp') is not None and case.get('app_hdr'):
+        env[case['app_hdr']] = case['xapp']        # the client sends the header the application reads its name from
+    for k in case.get('drop') or []:
+        env.pop(k, None)
     if case['t'] == 'page' and case['kind'] == 'map1':
         env['wsgi.input'] = io.BytesIO(b'zzzzz')
         env['CONTENT_LENGTH'] = '5'
@@ -253,6 +362,12 @@ def _call(case, app=None):
     if app is None:
         app = _make_app(case)
     app.c20_arg = None
+    app.c20_okvar = case.get('okvar', 'str')
+    want = bool(case.get('debug'))
+    if app.c20_debug != want:
+        # the flag is changed on the live application between two requests
+        _set_debug(app, case, want, 'attr' if case.get('debug_via') == 'attr' else 'setup')
+        app.c20_debug = want
     env = _environ(case)
     got = {}
 
@@ -310,6 +425,10 @@ def _benign(case):
         c['xfp'] = 'https'
     if case.get('script'):
         c['script'] = '/app'
+    if case.get('xsn') is not None:
+        c['xsn'] = '/app'
+    if case.get('xapp') is not None:
+        c['xapp'] = '/ab'
     if case.get('msg') is not None:
         c['msg'] = 'benign message'
     return c
@@ -367,8 +486,8 @@ def _step_case(case, i):
     """request number i of a sequence as a stand-alone 'page' case"""
     s = dict(case['steps'][i])
     s['t'] = 'page'
-    s['debug'] = bool(case.get('debug'))
-    for k in ('msg', 'tyname'):
+    s['debug'] = bool(s['debug']) if 'debug' in s else bool(case.get('debug'))
+    for k in APP_KEYS:
         if k in case:
             s[k] = case[k]
     return s
@@ -380,13 +499,16 @@ def _observe_seq(case):
     k = json.dumps(case, sort_keys=True)
     if k not in _CACHE:
         n = len(case['steps'])
-        app = _make_app(_step_case(case, 0))
+        first = dict(_step_case(case, 0), debug=bool(case.get('debug')))
+        apps = [_make_app(first) for _ in range(max(1, int(case.get('napps', 1))))]
         steps = []
         for i in range(n):
             sc = _step_case(case, i)
-            o = _call(sc, app=app)
+            o = _call(sc, app=apps[case['steps'][i].get('app', 0) % len(apps)])
             steps.append(o)
         for i in range(n):
+            if case['steps'][i]['kind'] in NOISE:
+                continue
             single = _observe(_step_case(case, i))
             o = steps[i]
             for f in ('twin_body', 'twin_status', 'twin_ctype', 'altmsg_body'):
@@ -497,7 +619,8 @@ def project(obs, case):
     if case['t'] == 'seq':
         if 'steps' not in obs:
             return obs
-        return dict(steps=[dict(status=o['status'], ctype=o['ctype'], body=o['body']) for o in obs['steps']])
+        return dict(steps=[dict(status=o['status'], ctype=o['ctype'], body=o['body'])
+                           for s, o in zip(case['steps'], obs['steps']) if s['kind'] not in NOISE])
     if 'status' not in obs:
         return obs
     return dict(status=obs['status'], ctype=obs['ctype'], body=obs['body'])
@@ -550,11 +673,15 @@ def encode(case):
     if case['t'] == 'seq':
         obs = _observe_seq(case)
         ints, strs = [], []
+        n = 0
         for i, o in enumerate(obs['steps']):
+            if case['steps'][i]['kind'] in NOISE:
+                continue
             a, b = _page_payload(_step_case(case, i), o)
             ints += a
             strs += b
-        return [7] + _nonprintable(*strs) + [len(obs['steps'])] + ints
+            n += 1
+        return [7] + _nonprintable(*strs) + [n] + ints
     o = _observe(case)
     url = o['url'] if o['url'] is not None else ''
     debug = 1 if case.get('debug') else 0
@@ -562,7 +689,8 @@ def encode(case):
         tb = o['tbs'][-1] if o['tbs'] else ''
         exc = o['crit_exc']
         strs = [tb, o['path_info_after']] + (exc[1:] if exc else [])
-        return [1] + _nonprintable(*strs) + _opt(o['path_info_after']) + [debug] + _exc_enc(exc) + _s(tb)
+        head = 1 if case.get('method') == 'HEAD' else 0
+        return [1] + _nonprintable(*strs) + _opt(o['path_info_after']) + [debug] + _exc_enc(exc) + _s(tb) + [head]
     ints, strs = _page_payload(case, o)
     return [0] + _nonprintable(*strs) + ints
 
@@ -581,6 +709,8 @@ def _page_payload(case, o):
             m = o['handler_arg']          # the handler raised with the matched wildcard text
         if kind == 'unhandled':
             exc = ['msg', 'KeyError', m]          # KeyError overrides __str__ only; repr is the generic one
+        elif case.get('badrepr'):
+            exc = ['raw', '<unprintable %s object>' % (BadRepr,)]     # what render() substitutes
         else:
             exc = ['msg', 'ValueError', m]
     kcode = {'404': [0], '405': [1], '400path': [2], 'crash': [4], 'unhandled': [5], 'loops': [7]}.get(kind)
@@ -589,7 +719,8 @@ def _page_payload(case, o):
     if kind == 'type':
         kcode = [6] + _s(str(type(_type_obj(case.get('tyname', 'int')))))
     strs = [url, tb] + (exc[1:] if exc else [])
-    return kcode + _exc_enc(exc) + _opt(tb) + _s(url) + _opt(o['accept_seen']) + [debug], strs
+    head = 1 if case.get('method') == 'HEAD' else 0
+    return kcode + _exc_enc(exc) + _opt(tb) + _s(url) + _opt(o['accept_seen']) + [debug, head], strs
 
 
 def _str(r):
@@ -641,6 +772,10 @@ def oracle(case, obs):
         n = len(obs['steps'])
         for i, o in enumerate(obs['steps']):
             sc = _step_case(case, i)
+            if sc['kind'] in NOISE:
+                if str(o.get('status', ''))[:1] == '5':
+                    return 'request %d of %d (ordinary traffic) answered %r' % (i + 1, n, o.get('status'))
+                continue
             f = _resp_oracle(sc, o)
             if f is None and 'fresh' in o and (o['status'], o['ctype'], o['body']) != \
                     (o['fresh']['status'], o['fresh']['ctype'], o['fresh']['body']):
@@ -663,6 +798,13 @@ def _resp_oracle(case, obs):
     if not isinstance(ctype, str):
         return 'Content-Type headers: %r' % (ctype,)
     debug = bool(case.get('debug'))
+    if case.get('method') == 'HEAD':
+        if body != '':
+            return 'HEAD request answered with a body of %d characters' % len(body)
+        acc = obs.get('accept_seen')
+        if case['t'] == 'page' and bool(acc and acc.startswith('application/json')) != ctype.startswith('application/json'):
+            return 'HEAD: Accept %r answered with Content-Type %r' % (acc, ctype)
+        return None
     if ctype.startswith('application/json'):
         if case['t'] == 'crit':
             return 'last-resort page labelled JSON'
@@ -822,6 +964,48 @@ def corpus():
         seq([step('crash', 'u', '', accept=J), step('crash', 'u', '')], msg='first <b>', debug=True),
         seq([step('404', 'u', '', host='a<b>'), step('404', 'u', '', host='c"d', accept=J), step('404', 'u', '', host='a<b>')]),
     ]
+    Q = 'q=<b>&"\'{0}'
+    out += [
+        # round 4 audit: custom handlers delegating to the default one, primed request caches, debug set by
+        # setup()/attribute, route hooks, X-Script-Name, app_name_header / domain_map, missing environ keys, HEAD
+        page('404', 'u', qs=Q, via='custom'), page('405', 'u', qs=Q, via='custom', accept=J),
+        page('crash', 'u', qs=Q, via='custom', msg='<m>'), page('loops', 'u', qs=Q, via='custom'),
+        page('404', 'u', qs=Q, prime=True), page('404', 'u', qs=Q, prime=True, accept=J),
+        page('crash', 'u', qs=Q, msg='<m>', debug=True, debug_via='setup'),
+        page('crash', 'u', qs=Q, msg='<m>', debug=True, debug_via='attr'),
+        page('crash', 'u', qs=Q, msg='<m>', debug=False, debug_via='setup'),
+        crit('hdr', 'u', qs=Q, debug=True, debug_via='setup'), crit('hdr', 'u', qs=Q, debug=True, debug_via='attr'),
+        page('404', 'u', qs=Q, hooks=True), page('crash', 'u', qs=Q, hooks=True, msg='<m>'),
+        page('404', 'u', qs=Q, xsn_cfg=True, xsn='/<i>"/'), page('404', 'u', qs=Q, xsn_cfg=True, xsn='/x', script='/real'),
+        page('404', 'u', qs=Q, xsn='/ignored<i>'),
+        page('404', 'u', qs=Q, app_hdr='HTTP_X_APPNAME', xapp='/zz<b>'), page('404', 'u', qs=Q, app_hdr='HTTP_X_APPNAME', xapp='x' * 40),
+        page('404', 'u', qs=Q, dmap='fixed', host='h.example'), page('404', 'u', qs=Q, dmap='fromhost', host='<b>.example'),
+        page('404', 'u', qs=Q, dmap='fromhost', xfh='"x.y', host='h', app_hdr='HTTP_X_APPNAME'),
+        crit('errhandler', 'u', qs=Q, dmap='fromhost', host='<b>&.example'), crit('errhandler', 'u', dmap='fixed', debug=True),
+        page('404', 'u', qs=Q, drop=['QUERY_STRING']), page('404', 'u', drop=['SERVER_NAME', 'SERVER_PORT']),
+        page('404', 'u', qs=Q, drop=['wsgi.url_scheme', 'SCRIPT_NAME'], accept=J),
+        page('404', 'u', qs=Q, port='443', scheme='https'), page('404', 'u', qs=Q, port='443'), page('404', 'u', port='80', scheme='https'),
+        page('404', 'u', qs=Q, xfp='https', port='443'),
+        page('404', 'u', qs=Q, method='HEAD'), page('404', 'u', qs=Q, method='HEAD', accept=J),
+        page('crash', 'u', qs=Q, method='HEAD', msg='<m>', debug=True), page('loops', 'u', method='HEAD'),
+        crit('hdr', 'u', qs=Q, method='HEAD'), crit('errhandler', 'u', qs=Q, method='HEAD', debug=True),
+        # an exception whose repr() raises
+        page('crash', 'u', qs=Q, badrepr=True, msg='<m>'), page('crash', 'u', qs=Q, badrepr=True, msg='<m>', debug=True),
+        page('crash', 'u', qs=Q, badrepr=True, msg='<m>', accept=J), page('crash', 'u', badrepr=True, msg='<m>', accept=J, debug=True),
+        # sequences: ordinary traffic in between, two applications, the debug flag switched on the live application
+        seq([step('ok', 'u', okvar='json_ct'), step('404', 'u', Q), step('ok', 'u', okvar='cookie'), step('404', 'u', Q, accept=J)]),
+        seq([step('404', 'u', Q, accept=J), step('ok', 'u', okvar='gen'), step('404', 'u', Q)]),
+        seq([step('ok', 'u', okvar='abort_gen'), step('crash', 'u', Q), step('ok', 'u', okvar='file')], msg='<m>'),
+        seq([step('sub404', 'u', Q), step('404', 'u', Q), step('ok', 'u', okvar='gen_empty'), step('404', 'u', Q, accept=J)], hooks=True),
+        seq([step('crash', 'u', Q, debug=False), step('crash', 'u', Q, debug=True), step('crash', 'u', Q, debug=False)], msg='<m>'),
+        seq([step('crash', 'u', Q, debug=True), step('crash', 'u', Q, debug=False)], msg='<m>', debug_via='attr'),
+        seq([step('crash', 'u', Q, app=0, debug=True), step('crash', 'u', Q, app=1), step('404', 'u', Q, app=0, accept=J),
+             step('404', 'u', Q, app=1)], msg='<m>', napps=2),
+        seq([step('map0', 'u', Q, app=0), step('map0', 'u', Q, app=1, accept=J), step('map2', 'u', Q, app=0)], napps=2),
+        seq([step('404', 'u', Q), step('404', 'u', Q, accept=J)], via='custom', prime=True),
+    ]
+    for v in OKVARS:
+        out.append(seq([step('404', 'u', Q, accept=J), step('ok', 'u', okvar=v), step('404', 'u', Q)]))
     out += [
         prim('escape', '&<>"\''), prim('html_escape', '&<>"\''), prim('escape', '&amp;&&lt;'), prim('html_escape', ''),
         prim('repr', ''), prim('repr', "'"), prim('repr', '"'), prim('repr', '\'"'), prim('repr', '\\\n\r\t\x00\x1f\x7f'),
@@ -885,6 +1069,49 @@ def _gen_request(rng, c):
         c['accept'] = rng.choice(['application/json; q=0.9', 'application/jsonx', 'text/html,application/json', '',
                                   'APPLICATION/JSON', 'text/html', '*/*', 'application/jso', ' application/json',
                                   'application/json<x>'])
+    return c
+
+
+HEAD_OK = {'404', '400path', 'map0', 'crash', 'unhandled', 'type', 'loops'}
+DROPPABLE = ['QUERY_STRING', 'SERVER_NAME', 'SERVER_PORT', 'wsgi.url_scheme', 'SCRIPT_NAME']
+OKVARS = ['str', 'bytes', 'empty', 'list', 'liststr', 'gen', 'gen_empty', 'file', 'closeiter', 'abort_gen', 'json_ct', 'cookie']
+
+
+def _gen_app_opts(rng, c, allow_dmap=True):
+    """how the application is set up (the same for every request of a sequence)"""
+    if rng.random() < 0.2:
+        c['via'] = 'custom'
+    if rng.random() < 0.2:
+        c['prime'] = True
+    if rng.random() < 0.3:
+        c['debug_via'] = rng.choice(['setup', 'attr'])
+    if rng.random() < 0.2:
+        c['hooks'] = True
+    if rng.random() < 0.12:
+        c['xsn_cfg'] = True
+    if rng.random() < 0.1:
+        c['app_hdr'] = 'HTTP_X_APPNAME'
+    k = c.get('kind') or c.get('trigger')
+    if allow_dmap and k in ('404', 'errhandler') and rng.random() < 0.2:
+        c['dmap'] = rng.choice(['fixed', 'fromhost'])
+    if k == 'crash' and rng.random() < 0.1:
+        c['badrepr'] = True
+    return c
+
+
+def _gen_req_opts(rng, c, app):
+    """unusual but legal environ values of one request"""
+    k = c.get('kind') or c.get('trigger')
+    if rng.random() < 0.1:
+        c['drop'] = sorted(rng.sample(DROPPABLE, rng.randrange(1, 4)))
+    if (k in HEAD_OK or k in CRIT) and rng.random() < 0.08:
+        c['method'] = 'HEAD'
+    if app.get('xsn_cfg') and rng.random() < 0.8:
+        c['xsn'] = rng.choice(['/app', 'a/b/', '/<i>', '/a"b', "/'", '/' + _gen_latin(rng, 1, 3)])
+        if rng.random() < 0.7:
+            c.pop('script', None)
+    if app.get('app_hdr') and rng.random() < 0.6:
+        c['xapp'] = rng.choice(['/', '/zz', '/zz/p', '<b>', '/' + _gen_latin(rng, 0, 3), 'xxxxxxxxxxxxxxxxxxxxxxxxxxxx'])
     return c
 
 
@@ -978,6 +1205,24 @@ def _gen_seq(rng):
     if rng.random() < 0.7:
         c['msg'] = _gen_msg(rng, False)
     c['tyname'] = rng.choice(TYPES)
+    _gen_app_opts(rng, c, allow_dmap=False)
+    c.pop('badrepr', None)
+    for s in steps:
+        _gen_req_opts(rng, s, c)
+        if rng.random() < 0.15:
+            s['debug'] = rng.random() < 0.5          # the flag is switched on the live application
+    if rng.random() < 0.45:
+        # ordinary successful traffic between the error requests
+        for _ in range(rng.choice([1, 1, 2])):
+            ok = _fit(dict(kind=rng.choice(['ok', 'ok', 'ok', 'sub404'] if c.get('hooks') else ['ok']),
+                           tail=_gen_tail(rng), qs=_gen_latin(rng), okvar=rng.choice(OKVARS)))
+            if rng.random() < 0.4:
+                ok['accept'] = 'application/json'
+            steps.insert(rng.randrange(len(steps) + 1), ok)
+    if rng.random() < 0.3:
+        c['napps'] = 2
+        for s in steps:
+            s['app'] = rng.randrange(2)
     return c
 
 
@@ -998,6 +1243,8 @@ def gen(rng, n):
                     c['msg'] = None     # the handler raises with the matched path text
             if kind == 'type':
                 c['tyname'] = rng.choice(TYPES)
+            _gen_app_opts(rng, c)
+            _gen_req_opts(rng, c, c)
             yield _fit(c)
         elif r < 0.74:
             tr = rng.choice(CRIT)
@@ -1006,6 +1253,8 @@ def gen(rng, n):
                 c['msg'] = _gen_msg(rng, False)
             if tr == 'errhandler400':
                 c['tail'] = c['tail'] + _junk(rng, HIGH_LATIN + VOCAB, rng.randrange(0, 4))
+            _gen_app_opts(rng, c)
+            _gen_req_opts(rng, c, c)
             yield _fit(c)
         elif r < 0.84:
             yield _gen_seq(rng)
@@ -1134,7 +1383,13 @@ def shrink(case):
         yield dict(case, debug=False)
 
 
-PREDICATES = {}
+def _pred_badrepr_json(case, what, m):
+    """F35 (until the fix: commit is in /repo): a handler failing with an exception whose repr() raises, JSON requested"""
+    return (case.get('t') == 'page' and bool(case.get('badrepr')) and case.get('kind') == 'crash'
+            and (case.get('accept') or '').startswith('application/json'))
+
+
+PREDICATES = {'badrepr_json': _pred_badrepr_json}
 
 MANIFEST = dict(
     text=('Proof: theorems in coq/props/C20.v about the model coq/model/ErrPage.v (error.html taken from the source '
